@@ -7,6 +7,7 @@ pub mod exec;
 pub mod commit;
 pub mod relabel;
 pub mod unit;
+pub mod parseq;
 
 /// All harness instances by name (used by the native replay binary).
 #[cfg(not(kani))]
@@ -17,5 +18,6 @@ pub fn registry() -> Vec<(&'static str, fn())> {
     v.extend_from_slice(commit::INSTANCES);
     v.extend_from_slice(relabel::INSTANCES);
     v.extend_from_slice(unit::INSTANCES);
+    v.extend_from_slice(parseq::INSTANCES);
     v
 }
